@@ -98,6 +98,7 @@ def check(run):
     run.floor('C06-AGREE', sum(1 for o in run.obs if o.rule == 'C06-AGREE'), 19)
     outfile(run, p)
     inplace(run, p)
+    vername(run, p, km)
     from .c17 import rownum
     rownum(run, p)
     run.rules['C06-ROWNUM'] = run.rules.pop('C17-ROWNUM')
@@ -248,3 +249,34 @@ def inplace(run, p):
                    'store into the caller\'s frame `%s` under [%s]' % (norm(tgt)[:60], ' & '.join(g.text() for g in ch if g.kind == 'if')),
                    fn=f, node=tgt)
     run.floor('C06-INPLACE', n, 4)
+
+
+def vername(run, p, km):
+    from ..pyeval import Interp, Unsupported
+    run.rule('C06-VERNAME', 'the name a flag column is written under is a name the output stage recognises as a flag column of that '
+                            'field: for every constraint kind, is_ver_field(verification_field(f, kind), f) holds (also with a '
+                            'disambiguating _<n> suffix and for field names that contain underscores or end in digits), and an '
+                            'unrelated column is not taken for one - evaluated on the two functions and the suffix table')
+    I = Interp(p)
+    vf = p.fn('tdda.constraints.pd.constraints.verification_field')
+    iv = p.fn('tdda.constraints.pd.constraints.is_ver_field')
+    n = 0
+    for kind in sorted(km):
+        for field in ('f', 'a_b', 'x2', 'min'):
+            for suffix in ('', '_2'):
+                n += 1
+                key = 'kind=%s,field=%s%s' % (kind, field, ',disambiguated' if suffix else '')
+                try:
+                    name = I.call(vf, [field, kind]) + suffix
+                    ok = I.call(iv, [name, field]) is True
+                    msg = 'verification_field(%r, %r) = %r is %s by is_ver_field' % (field, kind, name, 'recognised' if ok else 'NOT recognised')
+                except Unsupported as e:
+                    raise AnalysisError('flag-name helpers not evaluable: %s' % e)
+                except (KeyError, TypeError) as e:
+                    ok, msg = False, 'verification_field(%r, %r) fails with %s' % (field, kind, type(e).__name__)
+                run.ob('C06-VERNAME', key, ok, msg, fn=iv)
+    for name, field in (('f_other', 'f'), ('fmin_ok', 'f'), ('f_min_ok_x', 'f'), ('g_min_ok', 'f')):
+        n += 1
+        r = I.call(iv, [name, field])
+        run.ob('C06-VERNAME', 'not-a-flag:%s/%s' % (name, field), not r, 'is_ver_field(%r, %r) = %r' % (name, field, r), fn=iv, nontrivial=False)
+    run.floor('C06-VERNAME', n, 80)
